@@ -3040,7 +3040,7 @@ impl Actor {
 
         let mut pledge_delta = TokenAmount::zero();
 
-        let (burn_amount, reward_amount) = rt.transaction(|st: &mut State, rt| {
+        let (mut burn_amount, reward_amount) = rt.transaction(|st: &mut State, rt| {
             let mut info = get_miner_info(rt.store(), st)?;
 
             // Verify miner hasn't already been faulted
@@ -3085,9 +3085,12 @@ impl Actor {
         })?;
 
         if let Err(e) =
-            extract_send_result(rt.send_simple(&reporter, METHOD_SEND, None, reward_amount))
+            extract_send_result(rt.send_simple(&reporter, METHOD_SEND, None, reward_amount.clone()))
         {
             error!("failed to send reward: {}", e);
+            // The reward was already taken from the miner as part of the penalty: burn it rather
+            // than leaving it in the miner's unlocked balance.
+            burn_amount += reward_amount;
         }
 
         burn_funds(rt, burn_amount)?;
